@@ -54,7 +54,7 @@ class SeqEngine(Engine):
     return [{'regs': [f], 'ops': [
         ['bind', 's1/f.a', ['i', 1]], ['bind', 's1/s2/f.a', ['i', 2]],
         ['with', 's1', [['curscope'], ['with', 's2', [['call', 'm.f', [], []], ['with', None, [['curscope']]],
-                                                      ['with', ['s2'], [['curscope'], ['raise']]], ['curscope']]],
+                                                      ['with', ['s2'], [['curscope'], ['raise']]], ['curscope'], ['with', 's3', [['raise', 'base']]], ['curscope']]],
                         ['curscope']]],
         ['curscope'],
         ['with', 's1', [['with', '1x', [['curscope']]], ['curscope']]], ['curscope'],
@@ -93,7 +93,7 @@ class SeqEngine(Engine):
         ops.append(['call', c['sel'], [], []] if rng.random() < 0.7 else
                    ['callvia', '/'.join(ginm.gen_scope(rng, 2) + [c['sel']]), [], []])
       elif r < 0.9 and depth > 0:
-        ops.append(['raise'])
+        ops.append(['raise'] if rng.random() < 0.6 else ['raise', 'base'])     # 'base': a non-Exception exception
       else:
         ops.append(['curscope'])
     ops.append(['curscope'])
@@ -154,9 +154,10 @@ class SeqEngine(Engine):
 
 # ----------------------------------------------------------------- threads
 class Worker(threading.Thread):
-  def __init__(self, gin, probe, steps):
+  def __init__(self, gin, probe, steps, ctx=None):
     super().__init__(daemon=True, name='worker')   # all workers share one name on purpose
     self.gin, self.probe, self.steps = gin, probe, steps
+    self.ctx = ctx           # run the thread inside a copy of the spawner's contextvars.Context (asyncio.to_thread does)
     self.go = threading.Semaphore(0)
     self.done = threading.Semaphore(0)
     self.out = []
@@ -164,6 +165,12 @@ class Worker(threading.Thread):
     self.i = 0
 
   def run(self):
+    if self.ctx is not None:
+      self.ctx.run(self.body)
+    else:
+      self.body()
+
+  def body(self):
     gin = self.gin
     for st in self.steps:
       self.go.acquire()
@@ -243,7 +250,7 @@ class SchedEngine(Engine):
     sched = [i for i, t in enumerate(threads) for _ in t]
     rng.shuffle(sched)
     bindings = [['/'.join(ginm.gen_scope(rng, 3)), rng.randint(1, 9)] for _ in range(rng.randint(1, 5))]
-    return {'bindings': bindings, 'threads': threads, 'schedule': sched}
+    return {'bindings': bindings, 'threads': threads, 'schedule': sched, 'ctx': rng.random() < 0.4}
 
   def exhaustive(self):
     import itertools
@@ -281,7 +288,7 @@ class SchedEngine(Engine):
       k = case['schedule'][:i].count(t)
       th = [list(x) for x in case['threads']]
       del th[t][k]
-      yield {'bindings': case['bindings'], 'threads': th, 'schedule': case['schedule'][:i] + case['schedule'][i + 1:]}
+      yield {'bindings': case['bindings'], 'threads': th, 'schedule': case['schedule'][:i] + case['schedule'][i + 1:], 'ctx': case.get('ctx')}
 
   def alone(self, steps, store):
     """what one thread sees when it runs alone: the reference semantics of the property"""
@@ -322,7 +329,9 @@ class SchedEngine(Engine):
     def probe():
       r = f()
       return T('Unbound') if r is None else r
-    workers = [Worker(gin, probe, st) for st in case['threads']]
+    import contextvars
+    gin.current_scope()                 # the spawning thread has used the scope machinery before it spawns
+    workers = [Worker(gin, probe, st, contextvars.copy_context() if case.get('ctx') else None) for st in case['threads']]
     for w in workers:
       w.start()
     obs = []
